@@ -483,7 +483,9 @@ def run(ctx):
         "exactly one meta/program occurrence for a parsable program (whole_span / taxonomy)",
         "C02_node_span / C02_whole_span (flat-AST tree model: see C15/C01)",
     ]
-    if not ctx.violations and (not ctx.proofs_ok or ctx.broken):
+    known = {k.get("signature") for k in core.load_known() if k.get("property") == ctx.pid and k.get("status") == "finding"}
+    unknown = [v for v in ctx.violations if v.get("signature") is None or v.get("signature") not in known]
+    if not unknown and (not ctx.proofs_ok or ctx.broken):
         ctx.violations.append({
             "no_input": True,
             "what": "a proof or a correspondence stream of C02 no longer checks",
